@@ -136,6 +136,26 @@ func (p *Program) structObligations() *FuncResult {
 		}
 		ex.obls = append(ex.obls, &Obl{Name: "service#struct:every_message_and_query_is_routed_to_its_own_handler", Kind: "struct", Goal: goal, Props: []string{"C05", "C17", "C20"}, Src: src})
 	}
+	// parameter wiring (C19 C20 C04 C02): the validator the params subspace runs for a key (ParamSetPairs) is the one Params.Validate
+	// applies to the same field, so "accepted by a parameter change" and "accepted by genesis validation" are the same set
+	{
+		var bad []string
+		n := 0
+		for f, v := range p.paramValidateCalls {
+			n++
+			if w := p.paramValidators[f]; w != v {
+				bad = append(bad, fmt.Sprintf("field %s: Validate applies %s, ParamSetPairs registers %s", f, v, w))
+			}
+		}
+		sort.Strings(bad)
+		goal := tTrue
+		src := fmt.Sprintf("%d parameters: the validator registered in ParamSetPairs for a field is the validate* function Params.Validate applies to it", n)
+		if len(bad) > 0 || n == 0 {
+			goal = tFalse
+			src += " -- found: " + strings.Join(bad, "; ")
+		}
+		ex.obls = append(ex.obls, &Obl{Name: "service#struct:parameter_changes_and_genesis_validation_accept_the_same_parameters", Kind: "struct", Goal: goal, Props: []string{"C19", "C20", "C04", "C02"}, Src: src})
+	}
 	// module wiring (C05 C11 C17 C19 C20): the AppModule methods the SDK calls hand over to the functions under contract
 	if bad, n := p.moduleWiringProblems(); true {
 		goal := tTrue
